@@ -81,7 +81,7 @@ BOUNDS = {
                         'node list started at each of its 7 nodes)'],
               'depth': {'rect2x2': 2, 'rect3x2': 2, 'mixed6': 2, 'g7': 1, 'rect2x2L': 1, 'rect2x1n': 2, 'hang7r0': 2,
                         'rect2x2Lw0': 2, 'rect2x2Lw3': 1, 'hang7r1': 1, 'hang7r2': 1, 'hang7r3': 1, 'hang7r4': 1, 'hang7r5': 1, 'hang7r6': 1},
-              'subsets_depth0': 'every non-empty column subset (<= 6 columns)',
+              'subsets_depth0': 'every non-empty column subset (<= 6 columns); rect3x2: singles, pairs and the full set',
               'subsets_deeper': 'singles and the full set; single-object arguments (split_column quad, delete_column, '
                                 'rename, connection, layer): the first and the last canonical candidate'},
     'thorough': {'builders': 'as quick',
@@ -585,7 +585,10 @@ def plan(seed, tier, depth):
     if seed == 'g7':
         return ('g7', 'ends', True)
     if tier == 'quick':
-        return ('all', 'all', False) if depth == 0 else ('singles+full', 'ends', False)
+        if depth == 0:
+            # (the 6-column seed: singles, pairs and the full set here; every subset in the thorough tier)
+            return ('singles+pairs+full' if seed == 'rect3x2' else 'all', 'all', False)
+        return ('singles+full', 'ends', False)
     if depth == 0:
         return ('all', 'all', False)
     if depth == 1:
@@ -1134,8 +1137,8 @@ def op_class(op):
 
 # ----------------------------------------------------------------------------------- units
 
-NCHUNK = {'quick': {'rect2x2': 12, 'rect3x2': 40, 'mixed6': 8, 'g7': 8, 'rect2x2L': 1, 'rect2x1n': 4, 'hang7r0': 12,
-                    'rect2x2Lw0': 12, 'rect2x2Lw3': 1},
+NCHUNK = {'quick': {'rect2x2': 16, 'rect3x2': 40, 'mixed6': 8, 'g7': 8, 'rect2x2L': 1, 'rect2x1n': 4, 'hang7r0': 24,
+                    'rect2x2Lw0': 16, 'rect2x2Lw3': 1},
           'thorough': {'rect2x2': 68, 'rect3x2': 48, 'mixed6': 40, 'g7': 8, 'rect2x2L': 16, 'rect2x1n': 16,
                        'rect2x2Lw0': 16, 'rect2x2Lw3': 16}}
 for _r in range(7):
